@@ -478,7 +478,7 @@ func matchesRecordErrorOrder(c *Case) bool {
 
 func TestAuthorizeRepeat(t *testing.T) {
 	ev.SetChecks(ev.Scale(600, 20000))
-	rapid.Check(t, func(rt *rapid.T) {
+	ev.Check(t, func(rt *rapid.T) {
 		open := ev.KnownOpen("C14", "record-literal-error-order")
 		w := engineeredWorld(rt)
 		c := &Case{Family: "authorize", World: &w, R: R()}
@@ -754,7 +754,7 @@ func batchPolicies(t *rapid.T, w *gen.World) []Named {
 
 func TestBatchRepeat(t *testing.T) {
 	ev.SetChecks(ev.Scale(300, 10000))
-	rapid.Check(t, func(rt *rapid.T) {
+	ev.Check(t, func(rt *rapid.T) {
 		openTwice := ev.KnownOpen("C14", "batch-variable-twice-in-record")
 		openRec := ev.KnownOpen("C14", "record-literal-error-order")
 		w := engineeredWorld(rt)
@@ -960,6 +960,9 @@ func TestReplay(t *testing.T) {
 	}
 	if err != nil {
 		t.Fatal(err)
+	}
+	if ev.ReplayFuzz(t, rf, fuzzProps, nil) {
+		return
 	}
 	var c Case
 	if err := json.Unmarshal(rf.Case, &c); err != nil {
